@@ -436,14 +436,14 @@ def main(argv=None):
         f"{cid} {tier}: {evals} cases, {nontriv} distinct non-trivial, "
         f"{len(violations)} violation(s), {wall:.1f}s"
     )
-    if health:
-        print(f"HARNESS-ERROR property={cid} generator health: essential classes empty: {health}")
-        return 2
     if violations:
         for sig, rp in violations:
             print(f"  root cause: {sig}")
             print(f"VIOLATION property={cid} replay={rp}")
         return 1
+    if health and not a.examples:
+        print(f"HARNESS-ERROR property={cid} generator health: essential classes empty: {health}")
+        return 2
     return 0
 
 
